@@ -6,7 +6,9 @@ from gen import c06_blocks as G
 from lib.common import enc_str, enc_strs, dec_str, dec_ostr, dec_strs, model_run, src_hashes
 
 PID = "C06"
-RULE = ("correspondence: (a) extracted model (Nest/Split.v: splitlines, info splitting, parse_directive_text for the "
+RULE = ("gen: source translation (Gen/NestSrc.v: nested_render_text, MockState.nested_parse, render_fence/render_colon_fence, "
+        "render_directive/run_directive, render_substitution statement by statement, proved equal to the model: C06_src_is_model); "
+        "correspondence: (a) extracted model (Nest/Split.v: splitlines, info splitting, parse_directive_text for the "
         "admonition classes, wrapper printer, predicted nested_render_text calls) vs the implementation instrumented at "
         "DocutilsRenderer.nested_render_text; (b) one test per oracle hypothesis on the real libraries (fence content, "
         "admonition classes, text normalisation, file text, Jinja value); (c) the metamorphic pairs render(W(X)) vs render(X) "
@@ -16,6 +18,12 @@ RULE = ("correspondence: (a) extracted model (Nest/Split.v: splitlines, info spl
 TRUSTED = ["coq/Nest/Nest.v is a hand transcription of nested_render_text/run_directive/render_fence/render_colon_fence/"
            "render_substitution/current_node_context (base.py), MockState.nested_parse/MockInliner.parse/"
            "MockIncludeDirective.run (mocking.py); coq/Nest/Split.v of parse_directive_text (directives.py)",
+           "gen/c06_src.py + gen/c06_walk.py: the statement mapping (RULES tables) from nested_render_text, MockState.nested_parse, "
+           "render_fence/render_colon_fence, render_directive/run_directive, render_substitution to Gallina over the Nest.v state "
+           "(self._heading_offset -> hoff, md_env['temp_root_node'] -> troot, _level_to_section -> lmap, md_env -> s_env, "
+           "document.sub_references -> s_subrefs, current_node_context -> with_node/with_detached); asserts, the MockingError "
+           "handler, the fence_as_directive/commonmark_only/gfm_only configuration (parameters, instantiated at the default) and "
+           "statements listed as 'skip' are outside the model",
            "the abstract token type of Nest.v (leaf / container / heading / target / footnote / fence / substitution) "
            "covers how every render_<type> touches shared state; document['source'] switching in include is not modelled",
            "canonical doctree comparison in props/C06.py (line/source masked, section->rubric on the top-level side)"]
@@ -51,6 +59,12 @@ SETTINGS = {"myst_enable_extensions": G.EXTENSIONS}
 
 
 def gen(ctx):
+    import hashlib
+    from gen import c06_src
+    from lib.common import COQ, REPO, write_if_changed
+    src = c06_src.generate(REPO)        # raises Untranslatable on any statement outside the mapping
+    write_if_changed(COQ / "Gen" / "NestSrc.v", src)
+    ctx.gen_info["NestSrc.v"] = hashlib.sha256(src.encode()).hexdigest()[:16]
     ctx.gen_info["sources"] = src_hashes(["myst_parser/mdit_to_docutils/base.py", "myst_parser/mocking.py",
                                           "myst_parser/parsers/directives.py"])
 
